@@ -1501,6 +1501,7 @@ func main() {
 	section("corpus", h.corpus)
 	section("small", h.smallFuncs)
 	section("wbuf", func() { h.wbufOps(6000 * scale) })
+	section("dict", func() { h.dictOps(150 * scale) })
 	section("gather", func() { h.gatherOps(150 * scale) })
 	section("cw", func() { h.cwRuns(120 * scale) })
 	section("writer", func() { h.writerRuns(700 * scale) })
